@@ -11,7 +11,7 @@ fn l1(ctx: &mut Ctx) {
 /// parked in recv (the `not_delivered_at_quiescence` clause of the delivery oracle).
 fn l2(ctx: &mut Ctx) {
     let kind = RECV_KINDS[(ctx.idx % RECV_KINDS.len() as u64) as usize];
-    let out = recv::run(ctx, RecvCfg { kind, faults: false, cancel: false, max_senders: 4, max_msgs: 10, big: false, rejoin: false });
+    let out = recv::run(ctx, RecvCfg { kind, faults: false, cancel: false, max_senders: 4, max_msgs: 10, big: false, rejoin: false, long: false });
     recv::check_delivery(ctx, &out);
     ctx.check_panics();
 }
